@@ -44,6 +44,9 @@ func equivValue(a, b reflect.Value, path string) string {
 			if t.Name() == "Header" && t.Field(i).Name == "BodyLength" {
 				continue
 			}
+			if t.Name() == "ColumnMetadata" && t.Field(i).Name == "Index" {
+				continue // a Go-side annotation: the wire carries no index (the model's norm_column sets it to 0)
+			}
 			if d := equivValue(a.Field(i), b.Field(i), path+"."+t.Field(i).Name); d != "" {
 				return d
 			}
